@@ -26,12 +26,15 @@ Mapped(layout, a) == a \in DOMAIN layout
 ApplyWrite(layout, regs, wr) ==            \* wr = [a, d, s]
   IF ~Mapped(layout, wr.a) THEN regs       \* "accesses to unmapped addresses leave every register unchanged"
   ELSE LET merged == WithStrobe(regs[wr.a], wr.d, wr.s) IN
-       [regs EXCEPT ![wr.a] = IF layout[wr.a] = "word" THEN merged
+       [regs EXCEPT ![wr.a] = IF layout[wr.a] \in {"word", "memword"} THEN merged
                               ELSE [j \in 1..32 |-> IF j > 16 THEN merged[j] ELSE 0]]    \* only the writable field is stored
+
+\* agreement of an observed word with a specified one (unspecified bits match anything)
+Agrees(spec, seen) == Len(spec) = Len(seen) /\ \A j \in 1..Len(spec) : spec[j] = 2 \/ spec[j] = seen[j]
 
 ReadValue(layout, regs, a) ==
   IF ~Mapped(layout, a) THEN Zeros(32)
-  ELSE IF layout[a] = "word" THEN regs[a]
+  ELSE IF layout[a] \in {"word", "memword"} THEN regs[a]
   ELSE [j \in 1..32 |-> IF j > 16 THEN regs[a][j] ELSE Not3(regs[a][j + 16])]
 
 RECURSIVE ApplyAll(_, _, _, _)
@@ -43,7 +46,8 @@ Possible(layout, regs, infl) == {ApplyAll(layout, regs, infl, k) : k \in 0..Len(
 \* m = [regs, aw (accepted addresses), w (accepted data beats), infl (complete writes awaiting B), ar (accepted reads awaiting R),
 \*      pb, pr (previous pre-edge view of the B / R channel), bage, rage]
 MonInit(layout) ==
-  [regs |-> [a \in DOMAIN layout |-> Zeros(32)], aw |-> << >>, w |-> << >>, infl |-> << >>, ar |-> << >>,
+  \* a memory word without initial value is unspecified (2) until written
+  [regs |-> [a \in DOMAIN layout |-> IF layout[a] = "memword" THEN AllU(32) ELSE Zeros(32)], aw |-> << >>, w |-> << >>, infl |-> << >>, ar |-> << >>,
    pb |-> [valid |-> 0, ready |-> 1, resp |-> << >>], pr |-> [valid |-> 0, ready |-> 1, data |-> << >>, resp |-> << >>],
    bage |-> 0, rage |-> 0]
 
@@ -56,7 +60,8 @@ MonCheck(layout, m, obs) ==
   ELSE IF obs.rv = 1 /\ m.ar = << >> THEN "read response without a read request"
   \* "a read returns the addressed register's current value": any value the register had (or may have had, while
   \* writes were awaiting their response) between the acceptance of the address and the completion of the read
-  ELSE IF obs.rv = 1 /\ obs.rr = 1 /\ obs.rdata \notin (Head(m.ar).vals \cup {ReadValue(layout, r, Head(m.ar).a) : r \in Possible(layout, m.regs, m.infl)})
+  ELSE IF obs.rv = 1 /\ obs.rr = 1 /\ ~(\E v \in (Head(m.ar).vals \cup {ReadValue(layout, r, Head(m.ar).a) : r \in Possible(layout, m.regs, m.infl)}) :
+                                           Agrees(v, obs.rdata))
        THEN "read data is not the addressed register's value"
   ELSE IF m.bage > 12 THEN "no write response within 12 clocks of bready"
   ELSE IF m.rage > 12 THEN "no read response within 12 clocks of rready"
@@ -92,5 +97,6 @@ MonStep(layout, m, obs) ==
 \* after the edge the register-backed outputs must show a register file consistent with the monitor:
 \* the committed writes, plus possibly a prefix of the writes whose response is still owed
 PortsOk(layout, m, ports) ==      \* ports : [address -> word shown]
-  \E r \in Possible(layout, m.regs, m.infl) : \A a \in DOMAIN ports : ports[a] = (IF layout[a] = "word" THEN r[a] ELSE [j \in 1..32 |-> IF j > 16 THEN r[a][j] ELSE 0])
+  \E r \in Possible(layout, m.regs, m.infl) : \A a \in DOMAIN ports :
+       Agrees(IF layout[a] \in {"word", "memword"} THEN r[a] ELSE [j \in 1..32 |-> IF j > 16 THEN r[a][j] ELSE 0], ports[a])
 =============================================================================
